@@ -5,8 +5,7 @@ import vlib
 
 def run_both(mode, cases, tag, timeout=1800, allmism=False, annotate=False):
     """cases: list of (case_id, [op lines]).  Returns (mismatches, impl_obs_by_case, stats)."""
-    os.makedirs(os.path.join(vlib.BUILD, "cases"), exist_ok=True)
-    cf = os.path.join(vlib.BUILD, "cases", tag + ".case")
+    cf = vlib.casefile(tag)
     with open(cf, "w") as f:
         for cid, lines in cases:
             f.write("case %s\n" % cid)
